@@ -340,6 +340,8 @@ class ConcEngine(object):
         res.stats["switches"] = sch.switches
         res.stats["preempt"] = dict((str(k), v) for k, v in sch.preempt_out.items())
         res.flags.add("policy:" + knobs.get("policy", "random"))
+        if sch.race_hits:
+            res.flags.add("race-postponed-step-met-conflict")
         res.flags.add("tasks:%d" % len(prog["tasks"]))
         for t in sch.tasks:
             if t.exc is not None:
